@@ -152,10 +152,20 @@ TIES = {
                "theorems": ["source_options_from_frame_is_model"]},
     # the Decoder class over the adapters as the model has them: decode_term (recursion on fuel), decode_row (dispatch on the
     # type of the row), iter_rows (the rows of a frame), __init__; and that the premises can be met for every row
+    "decoder_base": {"sources": ["pyjelly/parse/decode.py"], "unit": "decode", "gen": "DecodeGen", "tie": "DecoderBase",
+                     "needs": ["lookup_enc", "lookup_dec", "options", "encode", "decode"],
+                     "theorems": ["owner_msg_reads"]},
     "decoder": {"sources": ["pyjelly/parse/decode.py"], "unit": "decode", "gen": "DecodeGen", "tie": "DecoderTie",
-                "needs": ["lookup_enc", "lookup_dec", "options", "encode", "decode"],
-                "theorems": ["tie_dec_term", "source_decode_row_is_model", "source_iter_rows_is_model", "source_decoder_init_is_model",
-                             "owner_msg_reads", "source_iter_rows_on_built_frame"]},
+                "needs": ["lookup_enc", "lookup_dec", "options", "encode", "decode", "decoder_base"],
+                "theorems": ["tie_dec_term", "source_decode_row_is_model", "source_iter_rows_is_model", "source_iter_rows_on_built_frame",
+                             "source_decoder_init_is_model"]},
+    # the generic integration's adapters (with the Adapter base class and the term classes of generic_sink.py), translated, simulate
+    # the adapters as the model has them; hence the translated Decoder over the translated adapters against the model
+    "generic_parse": {"sources": ["pyjelly/integrations/generic/parse.py", "pyjelly/integrations/generic/generic_sink.py", "pyjelly/parse/decode.py"],
+                      "gen": "GenericParseGen", "tie": "GenericParseTie",
+                      "needs": ["lookup_enc", "lookup_dec", "options", "encode", "decode", "decoder_base", "decoder"],
+                      "theorems": ["generic_decode_row_is_model", "generic_iter_rows_is_model", "generic_iter_rows_on_built_frame",
+                                   "generic_decoder_init_is_model", "types_named_iff"]},
     # property C05 itself, about the translated writer and reader coupled as the wire couples them (no model in the statement)
     "c05_source": {"sources": ["pyjelly/serialize/lookup.py", "pyjelly/parse/lookup.py"], "unit": "lookup_enc", "gen": "LookupEncGen", "tie": "C05Source",
                    "needs": ["lookup_enc", "lookup_dec"], "props": ["C05"], "theorems": ["C05_source_mirror_all_histories"]},
@@ -305,10 +315,31 @@ def source_ties(ctx, po: dict, pid: str) -> list[str]:
     broken_units = []
     if not units:
         return broken_units
+    # a unit whose tie file is compiled (and its theorems counted) as part of another selected unit's chain is not compiled a
+    # second time: it takes that chain's verdict; only if the chain fails is it checked on its own, to say which tie broke
+    names = [u for u, _ in units]
+    covered_by = {u: next((v for v in names if v != u and u in TIES[v]["needs"]), None) for u in names}
+    roots = [(u, t) for u, t in units if covered_by[u] is None]
     with ThreadPoolExecutor(max_workers=len(units) + 1) as ex:
         prim = ex.submit(_prim_check, ctx.seed, 60 if ctx.quick else 400)
-        results = list(ex.map(lambda ut: _one_tie(ut[0], ut[1], repo), units))
+        root_res = dict(zip([u for u, _ in roots], ex.map(lambda ut: _one_tie(ut[0], ut[1], repo), roots)))
+
+        def top(u):
+            while covered_by[u] is not None:
+                u = covered_by[u]
+            return u
+        again = [(u, t) for u, t in units if covered_by[u] is not None and root_res[top(u)]["broken"]]
+        again_res = dict(zip([u for u, _ in again], ex.map(lambda ut: _one_tie(ut[0], ut[1], repo), again)))
         prim_bad, prim_n = prim.result()
+    results = []
+    for u, t in units:
+        if u in root_res:
+            results.append(root_res[u])
+        elif u in again_res:
+            results.append(again_res[u])
+        else:
+            r0 = root_res[top(u)]
+            results.append({"unit": u, "broken": None, "lines": r0["lines"], "cached": r0.get("cached", False)})
     if prim_bad:
         po["broken"].append(prim_bad)
     else:
